@@ -242,12 +242,25 @@ class Session:
         txt = self.text(ti)
         kw = self.parse_kwargs(ti, op.get("kw", {}))
         via = op.get("via", "string")
+        ru = bool(op.get("kw", {}).get("return_usepulses"))
+
+        def unwrap(r):
+            # (circuit, {"usepulses": ...}) when return_usepulses was requested
+            if ru:
+                c, extra = r
+                if not isinstance(extra, dict) or "usepulses" not in extra:
+                    raise AssertionError("return_usepulses: second value is %r" % (extra,))
+                return c
+            return r
+
+        if ru:
+            kw["return_usepulses"] = True
         if via == "file":
             path = os.path.join(self.scratch, "prog%d.jaqal" % ti)
             with open(path, "w", encoding="utf8", newline="") as f:
                 f.write(txt)
             kw.pop("import_path", None) if not self.plan["texts"][ti].get("pulses") else None
-            return lambda: parse_jaqal_file(path, **kw)
+            return lambda: unwrap(parse_jaqal_file(path, **kw))
         if via == "sexpr":
             bkw = {k: kw[k] for k in ("inject_pulses", "autoload_pulses", "import_path") if k in kw}
             return lambda: build(parse_to_sexpression(txt), **bkw)
@@ -273,7 +286,7 @@ class Session:
             with open(path, "w", encoding="utf8", newline="") as f:
                 f.write(txt)
             return lambda: parse_jaqal_file_header(path)
-        return lambda: parse_jaqal_string(txt, **kw)
+        return lambda: unwrap(parse_jaqal_string(txt, **kw))
 
     def pass_callable(self, name, override, c):
         from jaqalpaq.core.algorithm import expand_macros, fill_in_let, expand_subcircuits
@@ -487,6 +500,8 @@ def plan_c11(run_seed):
                 kw[t.choice(["expand_macro", "expand_let", "expand_let_map"])] = True
                 if (kw.get("expand_let") or kw.get("expand_let_map")) and texts[ti]["ov"] and t.chance(0.6):
                     kw["override"] = texts[ti]["ov"]
+            if t.chance(0.15):
+                kw["return_usepulses"] = True
             ops.append({"op": "parse", "text": ti, "kw": kw, "via": t.weighted([("string", 6), ("sexpr", 1), ("file", 1)])})
             live.append((nid, ti, False))
             nid += 1
@@ -882,6 +897,8 @@ def plan_c16(run_seed):
                 kw["override"] = e["ov"]
         if e.get("pulses") and t.chance(0.2):
             kw["inject_subset"] = t.sample(sorted(GS.SIGS), t.randint(1, 3))
+        if t.chance(0.15):
+            kw["return_usepulses"] = True
         if t.chance(p_bad) and "raw" not in e:
             # a corrupted variant of text ti becomes a new text entry
             ops.append({"op": "corrupt", "text": ti, "seed": t.randrange(1 << 30), "kw": kw, "via": t.weighted([("string", 5), ("file", 2), ("sexpr", 1), ("header", 0.5), ("run", 1.0 if not e.get("anon") else 0.2), ("run_file", 0.7 if e.get("pulses") else 0)])})
